@@ -139,7 +139,7 @@ func init() {
 	addProp(&PropSpec{
 		ID: "C08",
 		Harnesses: []HarnessSpec{
-			{Name: "VerifH_readAll", Covers: []string{"within", "at-limit", "over"}},
+			{Name: "VerifH_readAll", Terminates: true, StepsQ: 400000, StepsT: 400000, Covers: []string{"within", "at-limit", "over"}},
 			{Name: "VerifH_writeAll", Covers: []string{"within", "over"}},
 			{Name: "VerifH_grpc_recv", Covers: []string{"delivered", "delivered-decompressed", "over-limit", "over-limit-after-decompression", "truncated", "stats-inpayload", "undecodable"}},
 			{Name: "VerifH_grpc_send", Covers: []string{"sent", "sent-above-receive-limit", "refused", "stats-outpayload", "compressed", "compressed-empty"}},
@@ -363,6 +363,8 @@ func init() {
 		ext(id, "error bodies when the request's Content-Type is not a registered codec (absent, image/jpeg, text/plain with parameters, form post) x Accept absent / registered / unregistered x 16 codes: a response with the documented status and a Status body labelled with a registered codec's type",
 			HarnessSpec{Name: "VerifH_error_body_ctype", Covers: []string{"handler-failed"}})
 	}
+	ext("C09", "unary body reader (readAll) on bodies below, at and above the receive limit over every read partition: terminates (a path that exhausts the step budget is a violation: the reader loops without consuming input)",
+		HarnessSpec{Name: "VerifH_readAll", Terminates: true, StepsQ: 400000, StepsT: 400000, Covers: []string{"within", "at-limit", "over"}})
 	wkt := "well-known-type parameters (google.protobuf wrappers, FieldMask, Duration, Timestamp) through the real parseQueryParams / parseParam / quote / params.set: the empty text for each of 10 types, a menu of 40 boundary texts (non-BMP strings, 32/64-bit limits, duration range and Go-style units, leap days, RFC 3339 range), symbolic texts of 1..3 (quick) / 1..4 (thorough) bytes for StringValue, BoolValue, Int32Value / UInt32Value, BytesValue, FieldMask; protojson's scalar forms modelled (model_wkt.go), generated messages seen through a fake reflection view"
 	for _, id := range []string{"C03", "C09", "C01"} {
 		ext(id, wkt, HarnessSpec{Name: "VerifH_params_wkt", Covers: []string{"empty-value", "menu-accepted", "menu-rejected", "string-wrapper", "bool-wrapper", "int-wrapper", "int-wrapper-rejected", "bytes-wrapper", "fieldmask", "fieldmask-rejected"}})
@@ -576,7 +578,7 @@ func init() {
 	ext("C16", "panic-freedom at the lexer's 64-token cap (shared with C09)", HarnessSpec{Name: "VerifH_match_tokencap", Covers: []string{"rejected", "dispatched"}})
 
 	ext("C09", "a mux with nothing registered yet (every entry kind, DropConn of an unknown connection); WebSocket upgrade on a connection that cannot be hijacked",
-		HarnessSpec{Name: "VerifH_entry_empty", Covers: []string{"grpc", "grpc-web", "http", "websocket"}},
+		HarnessSpec{Name: "VerifH_entry_empty", Covers: []string{"grpc", "grpc-web", "http", "websocket", "with-stats", "unknown-method"}},
 		HarnessSpec{Name: "VerifH_ws_raw", Covers: []string{"not-hijackable"}},
 		HarnessSpec{Name: "VerifH_serveHTTP_status", Covers: []string{"empty-reply", "stats"}})
 	ext("C11", "a mux with nothing registered yet", HarnessSpec{Name: "VerifH_entry_empty", Covers: []string{"grpc", "http"}})
